@@ -170,6 +170,18 @@ func (f *Frame) enterBlock(b *ssa.BasicBlock) *cursor {
 	}
 	e.havoc(hst, li.fams, li.all)
 	for _, phi := range phis {
+		// a header phi that the loop never changes (every back edge carries the phi
+		// itself) keeps its entry value
+		invariantPhi := true
+		for j, p := range b.Preds {
+			if isBackEdge(f.loops, p, b) && phi.Edges[j] != phi {
+				invariantPhi = false
+			}
+		}
+		if invariantPhi && entryEnv[phi].S != "" {
+			f.setVal(phi, entryEnv[phi])
+			continue
+		}
 		f.freshFor(phi, hst)
 	}
 	c.st = hst
@@ -1284,6 +1296,12 @@ func (f *Frame) checkAnchors(c *cursor, b *ssa.BasicBlock, idx int, in ssa.Instr
 		env.lookup = f.resolverAtPoint(b, idx, nil, c.st)
 		// arguments of the anchored call are available as arg0, arg1, ...
 		if call, ok := in.(*ssa.Call); ok {
+			if bi, isB := call.Call.Value.(*ssa.Builtin); isB && bi.Name() == "append" && len(call.Call.Args) == 2 {
+				if one := f.singletonSlice(call.Call.Args[1]); one != nil {
+					env.names["elem"] = f.val(one) // the single appended element
+					env.types["elem"] = one.Type()
+				}
+			}
 			for i, av := range call.Call.Args {
 				if _, isLv := f.lvals[av]; isLv {
 					continue
